@@ -310,6 +310,23 @@ theorem sub32_W_seqOf {isn k : Nat} {off : Int} (h : off ≤ (k : Int)) (h' : (k
     sub32 (W isn k) (seqOf isn off) = ((k : Int) - off).toNat := by
   unfold sub32 W seqOf wrap32; omega
 
+/-- the end of an arriving segment compares with the delivery point as the absolute positions do -/
+theorem chunkEnd_compare {isn k N : Nat} {off : Int} {n : Nat} (hN : N < 2147483648) (_hk : k ≤ N)
+    (hwin : (k : Int) - off < 2147483648) (hin : off + (n : Int) ≤ (N : Int)) :
+    seqCompare (wrap32 (seqOf isn off + n)) (W isn k)
+      = if off + (n : Int) = (k : Int) then 0 else if off + (n : Int) < (k : Int) then -1 else 1 := by
+  rw [seqOf_end, W_eq_int, seqCompare_int _ _ (by omega) (by omega)]
+  split <;> (try split) <;> (try split) <;> (try split) <;> omega
+
+/-- the start of an arriving segment compares with the delivery point as the absolute positions do -/
+theorem start_compare {isn k N : Nat} {off : Int} {n : Nat} (hN : N < 2147483648) (_hk : k ≤ N)
+    (hwin : (k : Int) - off < 2147483648) (hin : off + (n : Int) ≤ (N : Int)) :
+    seqCompare (seqOf isn off) (W isn k) = if off = (k : Int) then 0 else if off < (k : Int) then -1 else 1 := by
+  rw [W_eq_int]
+  unfold seqOf
+  rw [seqCompare_int _ _ (by omega) (by omega)]
+  split <;> (try split) <;> (try split) <;> (try split) <;> omega
+
 /-- `process_payload` of the wrapped model moves in lock-step with the abstract tracker for every segment
     that starts less than 2^31 before the delivery point and ends inside the stream -/
 theorem processPayload_sim {s : Bytes} {cov : Nat → Prop} {isn : Nat} (hN : s.length < 2147483648)
